@@ -1918,6 +1918,10 @@ class Parallel(Logger):
         try:
             self._iterating = True
             self._original_iterator = iterable
+            # Nothing is pre-dispatched in sequential mode. print_progress
+            # reads this attribute once dispatching is over (in particular
+            # from the finally block below when a task raised).
+            self._pre_dispatch_amount = 0
             batch_size = self._get_batch_size()
 
             if batch_size != 1:
